@@ -5,7 +5,6 @@ import (
 	"encoding/json"
 	"errors"
 	"fmt"
-	"os"
 	"regexp"
 	"runtime"
 	"strconv"
@@ -37,7 +36,9 @@ type c16Case struct {
 	N     int       `json:"n"`    // number of URLs
 	Retry int       `json:"retry"`
 	Idem  bool      `json:"idem"`
-	Reuse bool      `json:"reuse"` // all calls share one ClientContext
+	Reuse bool      `json:"reuse"`  // all calls share one ClientContext
+	MinNs int64     `json:"min_ns"` // WithMinInterval (failover / failtry); tiny, so that sleeping costs microseconds
+	MaxNs int64     `json:"max_ns"` // WithMaxInterval
 	Calls []c16Call `json:"calls"`
 	// fork / bcast
 	Outs  string `json:"outs"`  // outcome per server
@@ -45,13 +46,14 @@ type c16Case struct {
 }
 
 type c16CallObs struct {
-	URLs    []int  `json:"urls"`    // URL index of every attempt, in order
-	Res     string `json:"res"`     // R<k> response of attempt k, E<k> its error, P<k> its panic as PanicError, X escaped panic, ? other
-	Retried int    `json:"retried"` // "retried" item afterwards
-	URL     int    `json:"url"`     // clientContext.URL afterwards
-	NFail   int    `json:"nf"`      // OnFailure callbacks during the call
-	NSucc   int    `json:"ns"`      // OnSuccess callbacks during the call
-	Msg     string `json:"msg,omitempty"`
+	URLs    []int   `json:"urls"`    // URL index of every attempt, in order
+	Res     string  `json:"res"`     // R<k> response of attempt k, E<k> its error, P<k> its panic as PanicError, X escaped panic, ? other
+	Retried int     `json:"retried"` // "retried" item afterwards
+	URL     int     `json:"url"`     // clientContext.URL afterwards
+	NFail   int     `json:"nf"`      // OnFailure callbacks during the call
+	NSucc   int     `json:"ns"`      // OnSuccess callbacks during the call
+	Iv      []int64 `json:"iv"`      // what the real OnRetry closure returned, per retry (ns); never a measured time
+	Msg     string  `json:"msg,omitempty"`
 }
 
 type c16Obs struct {
@@ -133,7 +135,7 @@ func runRetry(c *c16Case, obs *c16Obs) {
 	var cfg cluster.Config
 	opts := []cluster.Option{
 		cluster.WithRetry(c.Retry), cluster.WithIdempotent(c.Idem),
-		cluster.WithMinInterval(0), cluster.WithMaxInterval(0),
+		cluster.WithMinInterval(time.Duration(c.MinNs)), cluster.WithMaxInterval(time.Duration(c.MaxNs)),
 	}
 	useDefault := false
 	switch c.Mode {
@@ -152,13 +154,26 @@ func runRetry(c *c16Case, obs *c16Obs) {
 	default:
 		panic("c16: mode " + c.Mode)
 	}
+	var ivs []int64
+	watch := func(onRetry func(context.Context) time.Duration) func(context.Context) time.Duration {
+		if onRetry == nil {
+			return nil
+		}
+		return func(ctx context.Context) time.Duration {
+			d := onRetry(ctx) // the real closure: increments "retried", computes the back-off
+			ivs = append(ivs, int64(d))
+			return d
+		}
+	}
 	var cl *cluster.Cluster
 	if useDefault {
 		cl = cluster.New()
+		cl.OnRetry = watch(cl.OnRetry)
 		rotate := cl.OnFailure
 		cl.OnFailure = func(ctx context.Context) { rotate(ctx); nfail++ }
 	} else {
 		cfg.OnSuccess = func(ctx context.Context) { nsucc++ }
+		cfg.OnRetry = watch(cfg.OnRetry)
 		cl = cluster.New(cfg)
 	}
 	if useDefault {
@@ -169,9 +184,11 @@ func runRetry(c *c16Case, obs *c16Obs) {
 	scripted := func(ctx context.Context, request []byte, next core.NextIOHandler) ([]byte, error) {
 		a := k
 		k++
-		if a > 200 {
-			fmt.Fprintf(os.Stderr, "hv: c16 case %d call %d: more than 200 attempts, giving up\n", c.ID, ci)
-			os.Exit(4)
+		if a >= runawayCap {
+			// no case of the check gets anywhere near this many attempts: the retry loop ran
+			// away. End it with a success so that the call returns and the attempt count
+			// (far beyond any budget) is reported.
+			return response(fmt.Sprintf("ok-%d-%d", ci, a)), nil
 		}
 		urls = append(urls, urlIndex(client, core.GetClientContext(ctx)))
 		outs := c.Calls[ci].Outs
@@ -212,7 +229,7 @@ func runRetry(c *c16Case, obs *c16Obs) {
 		} else {
 			cc.Items().Del("retry")
 		}
-		k, urls, nfail, nsucc = 0, nil, 0, 0
+		k, urls, nfail, nsucc, ivs = 0, nil, 0, 0, nil
 		o := c16CallObs{}
 		func() {
 			defer func() {
@@ -228,9 +245,13 @@ func runRetry(c *c16Case, obs *c16Obs) {
 		o.Retried = cc.Items().GetInt("retried")
 		o.URL = urlIndex(client, cc)
 		o.NFail, o.NSucc = nfail, nsucc
+		o.Iv = append([]int64{}, ivs...)
 		obs.Calls = append(obs.Calls, o)
 	}
 }
+
+// runawayCap: attempts of one call after which the scripted handler answers with a success.
+const runawayCap = 64
 
 // fanStalls counts fan-out cases of this process in which the plugin never released the
 // caller or never invoked all servers.
